@@ -20,13 +20,15 @@
 (*       hdf5: ParticleArray(name, constants) (tag exists, no particles),  *)
 (*             add_property per dataset, set_output_arrays.                *)
 (*                                                                         *)
-(* Repaired = TRUE : the hdf5 reader as the round-trip property needs it   *)
-(*   (keeps `default` for properties that are not stored, restores the     *)
-(*   saved output list, aligns).  Invariant: RoundTrip.                    *)
-(* Repaired = FALSE: the hdf5 reader as implemented.  Invariant: every     *)
-(*   failing clause is explained by a known-finding signature, npz is      *)
-(*   exact (this checks that the signatures of Output.tla are the right    *)
-(*   ones and are complete for the modelled mechanism).                    *)
+(* Repaired = TRUE : the hdf5 writer/reader as they are since the three    *)
+(*   fix commits (default kept for properties that are not stored, an      *)
+(*   `output` flag per dataset, align_particles after loading).            *)
+(*   Invariant: RoundTrip.  This is the configuration the check runs.      *)
+(* Repaired = FALSE: the hdf5 reader as it was before the fixes.           *)
+(*   Invariant: every failing clause is explained by one of the recorded   *)
+(*   finding signatures of Output.tla and npz is exact (shows that the     *)
+(*   signatures are the right ones and complete for that mechanism; run    *)
+(*   in the thorough tier only).                                           *)
 (***************************************************************************)
 EXTENDS Output
 
@@ -84,14 +86,17 @@ PropArrays(a, all, only_real) ==
 \* NumpyOutput._dump: particle_data[name]["arrays"] = arrays, pickled
 NpzFile(info, cols) == [kind |-> "npz", info |-> info, arrays |-> cols]
 \* HDFOutput._dump/_set_properties: one dataset per property of the
-\* meta-data; stored ones carry the data; the output list is not written
-\* (the repaired writer adds it as an attribute of the array group)
+\* meta-data, carrying type/default/stride as attributes, a `stored` flag
+\* (stored ones hold the data) and - since the fix - an `output` flag saying
+\* whether the property is in the output list.  Before the fix the output
+\* list was not written at all and the reader took `stored` for it.
 HdfFile(info, cols) ==
     [kind   |-> "hdf5",
      consts |-> info.consts,
-     outs   |-> IF Repaired THEN info.outs ELSE {},
      dsets  |-> [x \in DOMAIN info.props |->
                    [stored  |-> x \in DOMAIN cols,
+                    output  |-> IF Repaired THEN x \in info.outs
+                                ELSE x \in DOMAIN cols,
                     data    |-> IF x \in DOMAIN cols THEN cols[x] ELSE <<>>,
                     type    |-> info.props[x].type,
                     default |-> info.props[x].default,
@@ -194,9 +199,8 @@ LoadHdf(f, ord) ==
                        default |-> h.default, stride |-> h.stride,
                        hasdata |-> h.stored, data |-> h.data]
         b == Build(Ctor, ord, Args)
-        stored == {x \in DOMAIN f.dsets : f.dsets[x].stored}
-    IN ToArr(IF Repaired THEN AlignB(b) ELSE b, f.consts,
-             IF Repaired THEN f.outs ELSE stored)
+        outs == {x \in DOMAIN f.dsets : f.dsets[x].output}
+    IN ToArr(IF Repaired THEN AlignB(b) ELSE b, f.consts, outs)
 
 Perms(S) == {q \in [1..Cardinality(S) -> S] :
                \A i, j \in DOMAIN q : q[i] = q[j] => i = j}
